@@ -54,7 +54,11 @@ func vCondParked(c *sync.Cond) int {
 	if cnt == nil {
 		return 0
 	}
-	time.Sleep(50 * time.Millisecond)
+	// woken waiters need the processor to leave: wait for the count to reach zero, up to 3 s
+	// (a waiter that was never woken stays parked for good, so a non-zero answer is stable)
+	for i := 0; i < 300 && atomic.LoadInt32(cnt) != 0; i++ {
+		time.Sleep(10 * time.Millisecond)
+	}
 	return int(atomic.LoadInt32(cnt))
 }
 
